@@ -753,7 +753,9 @@ func init() {
 		"++":  {Lbp: 140, Led: ledPostfix},
 		"--":  {Lbp: 140, Led: ledPostfix},
 		".":   {Lbp: 150, Led: ledInfix},
-		"...": {Lbp: 150, Led: ellipsisLed},
+		// x... applies to the whole argument, as in Go: append(b, s+t...) spreads s+t,
+		// so it binds looser than every operator and only tighter than the list comma
+		"...": {Lbp: commaBP + 5, Led: ellipsisLed},
 		"(":   {Lbp: 150, Nud: parenNud, Led: callLed},
 		"[":   {Lbp: 150, Led: indexLed},
 		"{":   {Lbp: 150, Led: newLed, Nud: dataNud},
